@@ -108,6 +108,14 @@ CHECKS = {
             "public attribute compared after every call, refused calls included.",
             TRUST + "fold assignment and per-row bits come from sklearn KFold and the user functions themselves.",
             "TLA+ spec + TLC model checking (safety + liveness) + TLC trace validation", "5/C19"),
+    "C20": ("Injector.tla gives every injector as a pure operator (swap, label swap / join, shift by factor*(alpha+window mean)) or as the relation "
+            "every run must satisfy (frame condition, random walk from x0 with +-1/sqrt(steps), window rows drawn from window rows, cover: hidden "
+            "column and n rows per group). TLC checks over ALL 3x2 / 4x2 matrices on {0,1,2}, all windows 0<=from,to<=n (empty and full) and all "
+            "column / class choices: involutions, idempotence, frame, exact effect, shift amount. Conformance: every window of a 5/7-row data set "
+            "x 8 injectors x ndarray/DataFrame, random larger calls, and the aggregate class frequencies of many resampling calls (6-sigma binomial "
+            "bound evaluated by TLC) on the real classes: container type, labels, input left unchanged, output = operator / relation.",
+            TRUST + "numeric data.",
+            "TLA+ spec + TLC exhaustive algebra check + TLC trace validation", "5/C20"),
 }
 
 NA_REASON = "check not built yet (build in progress; see DESIGN.md section 5)"
